@@ -147,7 +147,7 @@ Section Total.
       assert (Hex : exists r, plan_ty g pick fuel (RObj o) subs svc = Some r).
       { apply H1; [discriminate | intros u' Hu; discriminate | exact Hx | exact Hy | lia]. }
       destruct Hex as [[cs cafters] Hr]. rewrite Hr. eexists; reflexivity.
-    - apply andb_prop in Hn as [Hx Hz]. apply andb_prop in Hx as [Hx Hy]. apply andb_prop in Hx as [_ Hx].
+    - apply andb_prop in Hn as [Hx Hz]. apply andb_prop in Hx as [Hx Hne]. apply andb_prop in Hx as [Hx Hy]. apply andb_prop in Hx as [_ Hx].
       assert (Hex : exists r, plan_ty g pick fuel (RUnion u) subs svc = Some r).
       { apply H1; [discriminate | | exact Hx | exact Hy | lia].
         intros u' Hu. inversion Hu; subst u'. destruct (union_members g u); [discriminate|discriminate]. }
